@@ -122,7 +122,31 @@ func c05World(t *testing.T, r *simcore.Run) any {
 			src := d.Src
 			var pl []byte
 			kind := ""
-			switch tp.Intn(12, "akind") {
+			switch tp.Intn(13, "akind") {
+			case 12:
+				// a response of the session's server key holder with one header field changed and the
+				// authenticator recomputed: authentic, same unique identifier - and still not acceptable
+				if !useNTS {
+					continue
+				}
+				s2c := cl.Auth.NTSKEFetcher.VerifData().S2cKey
+				pt, ok := ntsOpenRaw(genuine, s2c)
+				if !ok {
+					continue
+				}
+				hdr := append([]byte(nil), genuine[:48]...)
+				switch tp.Intn(3, "resealed") {
+				case 0:
+					kind = "nts-resealed-origin-changed"
+					hdr[24+tp.Intn(8, "ob")] ^= 1 << tp.Intn(8, "obit")
+				case 1:
+					kind = "nts-resealed-stratum-0"
+					hdr[1] = 0
+				default:
+					kind = "nts-resealed-li-3"
+					hdr[0] |= 0xc0
+				}
+				pl = ntsReseal(hdr, uidOf(genuine), pt, s2c)
 			case 0:
 				kind = "random-bytes"
 				pl = make([]byte, []int{0, 1, 47, 48, 60, 200, 1024}[tp.Intn(7, "rlen")])
